@@ -93,4 +93,36 @@ def exitsRef (lvl : List Blk) (sub : List Name) : List Name :=
   sortNames (dedup ((lvl.filter fun b => sub.contains b.name).foldl
     (fun acc b => acc ++ b.jt.filter fun t => !sub.contains t) []))
 
+
+/-! ## Validator for strongly connected components (verified in `Scfg/Props/C13Scc.lean`) -/
+
+def closedUnder (lvl : List Blk) (cl : List Name) : Bool :=
+  cl.all fun x => (succOf lvl x).all fun y => cl.contains y
+
+/-- "`b` is not reachable from `a`", certified by a successor-closed set that contains the
+    successors of `a` and not `b` (the closure computed by `reachSet` is only a candidate). -/
+def notReachCert (lvl : List Blk) (a b : Name) : Bool :=
+  let cl := reachSet lvl a
+  (succOf lvl a).all (fun y => cl.contains y) && closedUnder lvl cl && !cl.contains b
+
+def disjointAll : List (List Name) → Bool
+  | [] => true
+  | c :: cs => cs.all (fun d => c.all fun x => !d.contains x) && disjointAll cs
+
+def crossOK (lvl : List Blk) : List (List Name) → Bool
+  | [] => true
+  | c :: cs => cs.all (fun d => c.all fun a => d.all fun b =>
+      notReachCert lvl a b || notReachCert lvl b a) && crossOK lvl cs
+
+/-- The list `comps` is the set of strongly connected components of the level: a partition of the
+    members; two different members of one component reach each other; members of different
+    components do not reach each other both ways. -/
+def sccValid (lvl : List Blk) (comps : List (List Name)) : Bool :=
+  let nodes := lvl.map (·.name)
+  nodes.all (fun v => comps.any fun c => c.contains v) &&
+  comps.all (fun c => c.all fun v => nodes.contains v) &&
+  disjointAll comps &&
+  comps.all (fun c => c.all fun a => c.all fun b => a == b || reachRef lvl a b) &&
+  crossOK lvl comps
+
 end Scfg.Spec
